@@ -118,6 +118,22 @@ def d4(ck: Check) -> None:
             if isinstance(x, (ast.Break, ast.Return)) and fm.cfg.enclosing_loops(fm.cfgn(x))[:1] in ([loops[0]] if loops else [], [cl]):
                 probs.append(f"line {x.lineno}: `{text(x)[:30]}` ends the enumeration of driver sets early: minimum-size sets were "
                              f"found, but larger inclusion-minimal sets (not supersets of them) are never tested")
+    # ... every valuation of a set of variables is an override of its own ({a:1,b:0} and {a:0,b:1} can both force a motif)
+    for lp_ in own_walk(f.node):
+        if isinstance(lp_, ast.For) and isinstance(lp_.iter, ast.Call) and callee_name(lp_.iter) == "product":
+            for x in ast.walk(lp_):
+                if isinstance(x, (ast.Break, ast.Return)) and fm.cfg.enclosing_loops(fm.cfgn(x))[:1] == [lp_]:
+                    probs.append(f"line {x.lineno}: `{text(x)[:30]}` leaves the loop over the valuations of a driver set: the other "
+                                 f"valuations of the same variables that force the motif are never reported")
+    # ... and the pool the sets are drawn from is the pool that was defined: no in-place change between the size rounds
+    for n_ in own_walk(f.node):
+        if isinstance(n_, ast.AugAssign) and text(n_.target) == POOL:
+            probs.append(f"line {n_.lineno}: `{text(n_)[:60]}` shrinks the driver pool between the size rounds: larger inclusion-minimal "
+                         f"sets that share a variable with a smaller driver set (but do not contain it) are never tested")
+        elif isinstance(n_, ast.Call) and isinstance(n_.func, ast.Attribute) and text(n_.func.value) == POOL \
+                and n_.func.attr in ("discard", "remove", "pop", "clear", "difference_update", "intersection_update",
+                                     "symmetric_difference_update", "add", "update"):
+            probs.append(f"line {n_.lineno}: `{text(n_)[:60]}` changes the driver pool in place")
     ck.ob("D4", fm, loops[0] if loops else f.node, not probs, "; ".join(sorted(set(probs))) if probs else
           "sizes 0..max ascending, sets = combinations(pool, size), no early exit", key="size enumeration")
     # subset skip
